@@ -1969,5 +1969,27 @@ class RedefChain(Family):
                 for n in (2, 3, 4, 6, 7, 10, 11)] + [Doc('rc-other', _decl() + '<other>abcd</other>', 'fault:lexical')]
 
 
-FAMILIES = {f.name: f for f in (VCond(), RedefChain(), Ids(), Keys(), XsiType(), Subst(), Fixed(), Wild(), Ns(), Mixed(),
+class OddNs(Family):
+    """A target namespace that is no XPath name (it starts with a digit): lookups that spell a declaration's name in an
+    XPath expression cannot find it."""
+    name = 'oddns'
+    paths = ()
+
+    def sources(self, version):
+        return {'oddns.xsd': f'''<xs:schema {XS} targetNamespace="1urn" xmlns:o="1urn" elementFormDefault="qualified">
+ <xs:element name="root"><xs:complexType><xs:sequence>
+   <xs:element name="a" type="xs:int" maxOccurs="unbounded"/></xs:sequence></xs:complexType>
+  <xs:unique name="ua"><xs:selector xpath="o:a"/><xs:field xpath="."/></xs:unique>
+ </xs:element>
+</xs:schema>'''}
+
+    def docs(self, rng):
+        return [
+            Doc('on-valid', _decl() + '<root xmlns="1urn"><a>1</a><a>2</a></root>', tag='namespace-no-xpath-name'),
+            Doc('on-bad', _decl() + '<root xmlns="1urn"><a>1</a><a>x</a></root>', 'fault:lexical', tag='namespace-no-xpath-name'),
+            Doc('on-dup', _decl() + '<root xmlns="1urn"><a>1</a><a>1</a></root>', 'fault:dup-unique', tag='namespace-no-xpath-name'),
+        ]
+
+
+FAMILIES = {f.name: f for f in (VCond(), RedefChain(), OddNs(), Ids(), Keys(), XsiType(), Subst(), Fixed(), Wild(), Ns(), Mixed(),
                                 Assert11(), Recur(), Multi(), Multi2(), Shadow(), IdFields(), Dtd(), Chameleon(), Big(), OnDemand(), Simple(), Grouped(), LaxBuilt(), DeepKey())}
